@@ -35,7 +35,15 @@ def poses_from_steps(steps):
     ps = [np.zeros(3)]
     for k, s in enumerate(steps):
         ps.append(ps[-1] + s * DIRS[k % 3])
-    return [geom.pose(np.eye(3), p) for p in ps]
+    # orientations that must not matter for a path-length delta: exact half
+    # turns (about z, about x) and a quarter turn between the identity
+    return [geom.pose(_PATH_ORI[k % len(_PATH_ORI)], p)
+            for k, p in enumerate(ps)]
+
+
+_PATH_ORI = [np.eye(3), np.diag([-1.0, -1.0, 1.0]), np.eye(3),
+             np.diag([1.0, -1.0, -1.0]),
+             np.array([[0.0, -1.0, 0.0], [1.0, 0.0, 0.0], [0.0, 0.0, 1.0]])]
 
 
 def poses_from_rots(idx):
